@@ -53,6 +53,7 @@ type FuncContract struct {
 	Ghost      []GhostUpdate
 	Notes      []string
 	Inst       []Clause // instantiation hints (integer shift terms)
+	Check      []string // if set: the only safety obligation kinds generated for this function
 	Src        string
 	Used       bool
 }
@@ -246,6 +247,10 @@ func (c *Contracts) LoadFile(path, pkg string) error {
 					return err
 				}
 				cur.Modifies = append(cur.Modifies, cl)
+			}
+		case "check":
+			for _, part := range splitTop(rest(1)) {
+				cur.Check = append(cur.Check, strings.TrimSpace(part))
 			}
 		case "inst":
 			for _, part := range splitTop(rest(1)) {
